@@ -755,6 +755,8 @@ impl<'a> GeneratorState<'a> {
                         return Err(self.compiler_state.syntax_error("Code too complex for the compiler", pos))
                     }
                     self.sasm(PHA)?; 
+                    // The accumulator is saved: the condition is free to use it (and must not save it again)
+                    self.acc_in_use = false;
                     self.local_label_counter_if += 1;
                     let ifend_label = format!(".ifend{}", self.local_label_counter_if);
                     let else_label = format!(".else{}", self.local_label_counter_if);
@@ -766,6 +768,7 @@ impl<'a> GeneratorState<'a> {
                     self.label(&ifend_label)?;
                     self.asm(STA, &ExprType::Tmp(false), pos, false)?;
                     self.sasm(PLA)?;
+                    self.acc_in_use = true;
                     Ok(ExprType::Tmp(false))
                 } else {
                     self.local_label_counter_if += 1;
